@@ -16,6 +16,8 @@ Hypothesis HFlush : forall ch, Forall P ch -> P (Flush ch).
 Hypothesis HRaw : forall h e, P (Raw h e).
 Hypothesis HFunc : forall ops, P (Func ops).
 Hypothesis HNop : P Nop.
+Hypothesis HIf : forall c thn els, Forall P thn -> Forall P els -> P (If c thn els).
+Hypothesis HFor : forall id body, Forall P body -> P (For id body).
 Fixpoint node_ind' (n : node) : P n :=
   let fix go (l : list node) : Forall P l :=
     match l with [] => Forall_nil P | x :: r => Forall_cons x (node_ind' x) (go r) end in
@@ -28,6 +30,8 @@ Fixpoint node_ind' (n : node) : P n :=
   | Raw h e => HRaw h e
   | Func ops => HFunc ops
   | Nop => HNop
+  | If c thn els => HIf c thn els (go thn) (go els)
+  | For id body => HFor id body (go body)
   end.
 End NodeInd.
 
@@ -38,7 +42,10 @@ Variable cap : nat.
 Variable sw : bool.
 Variable flusher : bool.
 Variable esc : bytes -> bytes.
-Variable env : N -> bytes * option N.
+Variable env : list nat -> N -> bytes * option N.
+Variable benv : list nat -> N -> bool.
+Variable senv : list nat -> N -> nat.
+Variable cnt : list nat -> N -> nat.
 Variable cancel : option N.
 Hypothesis sink_le : forall s p, fst (fst (sink s p)) <= length p.
 
@@ -47,9 +54,9 @@ Notation rstateT := (rstate sink_st).
 Notation InvT := (Inv sink_st cap).
 Notation do_writeT := (do_write sink_st sink cap).
 Notation buffer_flushT := (buffer_flush sink_st sink flusher).
-Notation runT := (run sink_st sink cap sw flusher esc env cancel).
+Notation runT := (run sink_st sink cap sw flusher esc env benv senv cnt cancel).
 Notation run_opT := (run_op sink_st sink cap sw).
-Notation denoteT := (denote esc env cancel).
+Notation denoteT := (denote esc env benv senv cnt cancel).
 Notation seq_rT := (seq_r sink_st).
 
 Definition RInv (written : bytes) (st : rstateT) : Prop := InvT written (rb st) (rw st).
@@ -138,21 +145,28 @@ Proof.
   - inversion H; subst. exists []. rewrite app_nil_r. split; [exact I|]. split; [apply prefix_refl|left; reflexivity].
 Qed.
 
-Lemma run_good : forall n, Good runT denoteT n.
+Lemma good_at {A} (P : A -> list nat -> Prop) (l : list A) path :
+  Forall (fun x => forall p, P x p) l -> Forall (fun x => P x path) l.
+Proof. intros H. eapply Forall_impl; [|exact H]. intros x Hx. apply Hx. Qed.
+
+Lemma run_good : forall n path, Good (fun x => runT x path) (fun x => denoteT x path) n.
 Proof.
-  induction n as [s|id f l c|g body IHb|cs IHb|ch IHb|h e0|ops|] using node_ind';
-    intros written st st' e I Eb H; cbn [run denote] in *.
+  induction n as [s|id f l c|g body IHb|cs IHb|ch IHb|h e0|ops| |c thn els IHt IHe|id body IHb] using node_ind';
+    intros path written st st' e I Eb H; cbn beta in H |- *; cbn [run denote] in *.
   - eapply write_good; eauto.
-  - destruct (env id) as [v [x|]].
+  - destruct (env path id) as [v [x|]].
     + inversion H; subst. exists []. rewrite app_nil_r. split; [exact I|]. split; [apply prefix_refl|left; reflexivity].
     + eapply write_good; eauto.
-  - destruct g; [destruct cancel as [c|]|].
+  - pose proof (good_at (fun x p => Good (fun y => runT y p) (fun y => denoteT y p) x) body path IHb) as Gb.
+    destruct g; [destruct cancel as [c|]|].
     + inversion H; subst. exists []. rewrite app_nil_r. split; [exact I|]. split; [apply prefix_refl|left; reflexivity].
-    + eapply (seq_good _ _ body); eauto.
-    + eapply (seq_good _ _ body); eauto.
-  - eapply (seq_good _ _ cs); eauto.
-  - destruct (seq_rT node runT ch st) as [st1 e1] eqn:S.
-    destruct (seq_good _ _ ch IHb _ _ _ _ I Eb S) as [d1 [I1 C1]].
+    + eapply (seq_good _ _ body Gb); eauto.
+    + eapply (seq_good _ _ body Gb); eauto.
+  - pose proof (good_at (fun x p => Good (fun y => runT y p) (fun y => denoteT y p) x) cs path IHb) as Gb.
+    eapply (seq_good _ _ cs Gb); eauto.
+  - pose proof (good_at (fun x p => Good (fun y => runT y p) (fun y => denoteT y p) x) ch path IHb) as Gb.
+    destruct (seq_rT node (fun x => runT x path) ch st) as [st1 e1] eqn:S.
+    destruct (seq_good _ _ ch Gb _ _ _ _ I Eb S) as [d1 [I1 C1]].
     destruct e1 as [y|].
     + inversion H; subst. exists d1. split; assumption.
     + destruct C1 as [G1 E1].
@@ -165,36 +179,48 @@ Proof.
     + eapply write_good; eauto.
   - eapply (seq_good _ _ ops); eauto. apply Forall_forall. intros o _. apply run_op_good.
   - inversion H; subst. exists []. rewrite app_nil_r. split; [exact I|]. split; [reflexivity|exact Eb].
+  - (* if / else, switch arm, conditional and boolean attribute: model and specification read the same oracle *)
+    pose proof (good_at (fun x p => Good (fun y => runT y p) (fun y => denoteT y p) x) thn path IHt) as Gt.
+    pose proof (good_at (fun x p => Good (fun y => runT y p) (fun y => denoteT y p) x) els path IHe) as Ge.
+    assert (T : test benv senv path c = holds benv senv path c) by (destruct c; reflexivity).
+    rewrite T in H. destruct (holds benv senv path c).
+    + eapply (seq_good _ _ thn Gt); eauto.
+    + eapply (seq_good _ _ els Ge); eauto.
+  - (* for: induction over the list of iterations, each iteration a statement list *)
+    eapply (seq_good (fun k => seq_rT node (fun x => runT x (k :: path)) body)
+                     (fun k => seq_d node (fun x => denoteT x (k :: path)) body) (seq 0 (cnt path id))); eauto.
+    apply Forall_forall. intros k _. apply seq_good.
+    apply (good_at (fun x p => Good (fun y => runT y p) (fun y => denoteT y p) x) body (k :: path) IHb).
 Qed.
 
-Lemma body_good body : Good (seq_rT node runT) (seq_d node denoteT) body.
+Lemma body_good body path : Good (seq_rT node (fun x => runT x path)) (seq_d node (fun x => denoteT x path)) body.
 Proof. apply seq_good. apply Forall_forall. intros n _. apply run_good. Qed.
 
-Notation render_topT := (render_top sink_st sink cap sw flusher esc env cancel).
+Notation render_topT := (render_top sink_st sink cap sw flusher esc env benv senv cnt cancel).
 
 (* ---------- the whole of C10 for one render ---------- *)
 Theorem render_top_spec pool choice g body (w0 : worldT) res w' pool' :
   recv w0 = [] -> log w0 = [] ->
   render_topT true pool choice g body w0 = (res, w', pool') ->
-  spec_ok (fst (denoteT (Templ g body))) (snd (denoteT (Templ g body))) res (recv w') (log w').
+  spec_ok (fst (denoteT (Templ g body) [])) (snd (denoteT (Templ g body) [])) res (recv w') (log w').
 Proof.
   intros R0 L0 H. unfold render_top in H.
   destruct (if g then cancel else None) as [c|] eqn:G.
   - (* ctx.Err() != nil: nothing is acquired, nothing is written *)
     destruct g; [|discriminate]. inversion H; subst res w' pool'. cbn [denote]. rewrite G, R0, L0. cbn [fst snd].
     unfold spec_ok. cbn [first_refusal]. repeat split; try discriminate; auto using prefix_nil.
-  - assert (D : denoteT (Templ g body) = seq_d node denoteT body).
+  - assert (D : denoteT (Templ g body) [] = seq_d node (fun x => denoteT x []) body).
     { cbn [denote]. destruct g; [rewrite G|]; reflexivity. }
     rewrite D. clear D.
     destruct (acquire pool choice) as [b0 pool1].
-    destruct (seq_rT node runT body {| rb := bw_reset b0; rw := w0 |}) as [st1 e] eqn:S.
+    destruct (seq_rT node (fun x => runT x []) body {| rb := bw_reset b0; rw := w0 |}) as [st1 e] eqn:S.
     destruct (buffer_flushT st1) as [st2 fe] eqn:F. inversion H; subst res w' pool'. clear H.
     assert (I0 : RInv [] {| rb := bw_reset b0; rw := w0 |}).
     { unfold RInv, Inv. cbn [rb rw bw_reset buf berr]. rewrite R0, L0. split; [|split]; cbn; auto; try lia.
       exists []. split; reflexivity. }
-    destruct (body_good body _ _ _ _ I0 eq_refl S) as [done [I1 C1]]. cbn [app] in I1.
+    destruct (body_good body [] _ _ _ _ I0 eq_refl S) as [done [I1 C1]]. cbn [app] in I1.
     destruct (buffer_flush_spec _ _ _ _ I1 F) as [I2 [E2 [B2 St]]].
-    destruct (seq_d node denoteT body) as [d de] eqn:SD. cbn [fst snd].
+    destruct (seq_d node (fun x => denoteT x []) body) as [d de] eqn:SD. cbn [fst snd].
     pose proof (received_is_prefix _ _ _ _ _ I2) as PR.
     assert (FR : berr (rb st2) = first_refusal (log (rw st2))) by (destruct I2 as [_ [_ X]]; exact X).
     unfold spec_ok. destruct e as [y|].
@@ -228,7 +254,7 @@ Proof.
   unfold render_top. destruct (if g then cancel else None); [reflexivity|].
   destruct (acquire pool choice) as [b0 p1]. destruct (acquire [] 0) as [b00 p0].
   unfold bw_reset.
-  destruct (seq_rT node runT body {| rb := {| buf := []; berr := None |}; rw := w0 |}) as [st1 e].
+  destruct (seq_rT node (fun x => runT x []) body {| rb := {| buf := []; berr := None |}; rw := w0 |}) as [st1 e].
   destruct (buffer_flushT st1) as [st2 fe]. reflexivity.
 Qed.
 
@@ -299,20 +325,31 @@ Proof.
     destruct e1; [inversion H; subst; exact N1|]. eapply IH; eassumption.
 Qed.
 
-Lemma run_no_spin : forall n st st' e, RNoSpin st -> runT n st = (st', e) -> RNoSpin st'.
+Lemma run_no_spin : forall n path st st' e, RNoSpin st -> runT n path st = (st', e) -> RNoSpin st'.
 Proof.
-  induction n as [s|id f l c|g body IHb|cs IHb|ch IHb|h e0|ops|] using node_ind'; intros st st' e N H; cbn [run] in H.
+  induction n as [s|id f l c|g body IHb|cs IHb|ch IHb|h e0|ops| |c thn els IHt IHe|id body IHb] using node_ind';
+    intros path st st' e N H; cbn [run] in H.
   - eapply do_write_no_spin; eassumption.
-  - destruct (env id) as [v [x|]]; [inversion H; subst; exact N|eapply do_write_no_spin; eassumption].
-  - destruct g; [destruct cancel|]; [inversion H; subst; exact N| |]; eapply (seq_no_spin _ body); eassumption.
-  - eapply (seq_no_spin _ cs); eassumption.
-  - destruct (seq_rT node runT ch st) as [st1 e1] eqn:S.
-    pose proof (seq_no_spin _ ch IHb _ _ _ N S) as N1.
+  - destruct (env path id) as [v [x|]]; [inversion H; subst; exact N|eapply do_write_no_spin; eassumption].
+  - pose proof (good_at (fun x p => forall st st' e, RNoSpin st -> runT x p st = (st', e) -> RNoSpin st') body path IHb) as Gb.
+    destruct g; [destruct cancel|]; [inversion H; subst; exact N| |]; eapply (seq_no_spin _ body Gb); eassumption.
+  - pose proof (good_at (fun x p => forall st st' e, RNoSpin st -> runT x p st = (st', e) -> RNoSpin st') cs path IHb) as Gb.
+    eapply (seq_no_spin _ cs Gb); eassumption.
+  - pose proof (good_at (fun x p => forall st st' e, RNoSpin st -> runT x p st = (st', e) -> RNoSpin st') ch path IHb) as Gb.
+    destruct (seq_rT node (fun x => runT x path) ch st) as [st1 e1] eqn:S.
+    pose proof (seq_no_spin _ ch Gb _ _ _ N S) as N1.
     destruct e1; [inversion H; subst; exact N1|]. eapply buffer_flush_no_spin; eassumption.
   - destruct e0; [inversion H; subst; exact N|eapply do_write_no_spin; eassumption].
   - eapply (seq_no_spin _ ops); [|exact N|exact H]. apply Forall_forall. intros o _ s1 s2 e1 N1 H1.
     destruct o; cbn [run_op] in H1; [eapply do_write_no_spin; eassumption|eapply do_write_no_spin; eassumption|inversion H1; subst; exact N1].
   - inversion H; subst. exact N.
+  - pose proof (good_at (fun x p => forall st st' e, RNoSpin st -> runT x p st = (st', e) -> RNoSpin st') thn path IHt) as Gt.
+    pose proof (good_at (fun x p => forall st st' e, RNoSpin st -> runT x p st = (st', e) -> RNoSpin st') els path IHe) as Ge.
+    destruct (test benv senv path c); [eapply (seq_no_spin _ thn Gt)|eapply (seq_no_spin _ els Ge)]; eassumption.
+  - eapply (seq_no_spin (fun k => seq_rT node (fun x => runT x (k :: path)) body) (seq 0 (cnt path id))); [|exact N|exact H].
+    apply Forall_forall. intros k _ s1 s2 e1 N1 H1.
+    eapply (seq_no_spin _ body); [|exact N1|exact H1].
+    apply (good_at (fun x p => forall st st' e, RNoSpin st -> runT x p st = (st', e) -> RNoSpin st') body (k :: path) IHb).
 Qed.
 
 Theorem render_top_no_spin pool choice g body (w0 : worldT) res w' pool' :
@@ -322,12 +359,12 @@ Proof.
   unfold render_top in H. destruct (if g then cancel else None).
   - inversion H; subst. rewrite L0. intros [].
   - destruct (acquire pool choice) as [b0 pool1].
-    destruct (seq_rT node runT body {| rb := bw_reset b0; rw := w0 |}) as [st1 e] eqn:S.
+    destruct (seq_rT node (fun x => runT x []) body {| rb := bw_reset b0; rw := w0 |}) as [st1 e] eqn:S.
     destruct (buffer_flushT st1) as [st2 fe] eqn:F. inversion H; subst.
     assert (N0 : RNoSpin {| rb := bw_reset b0; rw := w0 |}).
     { split; cbn [rb rw bw_reset buf]; [unfold no_spin; rewrite L0; intros []|cbn; lia]. }
     assert (N1 : RNoSpin st1).
-    { eapply (seq_no_spin _ body); [|exact N0|exact S]. apply Forall_forall. intros n _. apply run_no_spin. }
+    { eapply (seq_no_spin _ body); [|exact N0|exact S]. apply Forall_forall. intros n _ s1 s2 e1. apply run_no_spin. }
     destruct (buffer_flush_no_spin _ _ _ N1 F) as [N2 _]. exact N2.
 Qed.
 End SkelP.
@@ -368,37 +405,37 @@ Proof.
     destruct (take (j_choice2 sink_st j) (snd ps)) as [[c bp1]|] eqn:T.
     + destruct (take_In _ _ _ _ T) as [I1 I2].
       assert (c = []) by (eapply (proj1 (Forall_forall _ _) C); exact I1). subst c.
-      pose proof (render_top_pool_irrelevant unit buffer_sink cap true false esc (j_env _ j) (j_cancel _ j)
+      pose proof (render_top_pool_irrelevant unit buffer_sink cap true false esc (j_env _ j) (j_benv _ j) (j_senv _ j) (j_cnt _ j) (j_cancel _ j)
                     (fst ps) (j_choice _ j) (j_guard _ j) (j_body _ j) {| sst := tt; recv := []; log := []; marks := [] |}) as PI.
-      destruct (render_top unit buffer_sink cap true false esc (j_env _ j) (j_cancel _ j) true (fst ps) (j_choice _ j)
+      destruct (render_top unit buffer_sink cap true false esc (j_env _ j) (j_benv _ j) (j_senv _ j) (j_cnt _ j) (j_cancel _ j) true (fst ps) (j_choice _ j)
                   (j_guard _ j) (j_body _ j) {| sst := tt; recv := []; log := []; marks := [] |}) as [[e w] rp].
-      destruct (render_top unit buffer_sink cap true false esc (j_env _ j) (j_cancel _ j) true [] (j_choice _ j)
+      destruct (render_top unit buffer_sink cap true false esc (j_env _ j) (j_benv _ j) (j_senv _ j) (j_cnt _ j) (j_cancel _ j) true [] (j_choice _ j)
                   (j_guard _ j) (j_body _ j) {| sst := tt; recv := []; log := []; marks := [] |}) as [[e1 w1] rp1] eqn:R1.
-      pose proof (render_top_pool_irrelevant unit buffer_sink cap true false esc (j_env _ j) (j_cancel _ j)
+      pose proof (render_top_pool_irrelevant unit buffer_sink cap true false esc (j_env _ j) (j_benv _ j) (j_senv _ j) (j_cnt _ j) (j_cancel _ j)
                     [] (j_choice _ j) (j_guard _ j) (j_body _ j) {| sst := tt; recv := []; log := []; marks := [] |}) as PI1.
       rewrite R1 in PI1. rewrite <- PI1 in PI. cbn [fst] in PI. inversion PI; subst.
       cbn [fst snd]. split; [reflexivity|].
       unfold pools_clean. cbn [snd]. constructor; [reflexivity|].
       apply Forall_forall. intros y Hy. eapply (proj1 (Forall_forall _ _) C). apply I2. exact Hy.
-    + pose proof (render_top_pool_irrelevant unit buffer_sink cap true false esc (j_env _ j) (j_cancel _ j)
+    + pose proof (render_top_pool_irrelevant unit buffer_sink cap true false esc (j_env _ j) (j_benv _ j) (j_senv _ j) (j_cnt _ j) (j_cancel _ j)
                     (fst ps) (j_choice _ j) (j_guard _ j) (j_body _ j) {| sst := tt; recv := []; log := []; marks := [] |}) as PI.
-      destruct (render_top unit buffer_sink cap true false esc (j_env _ j) (j_cancel _ j) true (fst ps) (j_choice _ j)
+      destruct (render_top unit buffer_sink cap true false esc (j_env _ j) (j_benv _ j) (j_senv _ j) (j_cnt _ j) (j_cancel _ j) true (fst ps) (j_choice _ j)
                   (j_guard _ j) (j_body _ j) {| sst := tt; recv := []; log := []; marks := [] |}) as [[e w] rp].
-      destruct (render_top unit buffer_sink cap true false esc (j_env _ j) (j_cancel _ j) true [] (j_choice _ j)
+      destruct (render_top unit buffer_sink cap true false esc (j_env _ j) (j_benv _ j) (j_senv _ j) (j_cnt _ j) (j_cancel _ j) true [] (j_choice _ j)
                   (j_guard _ j) (j_body _ j) {| sst := tt; recv := []; log := []; marks := [] |}) as [[e1 w1] rp1] eqn:R1.
-      pose proof (render_top_pool_irrelevant unit buffer_sink cap true false esc (j_env _ j) (j_cancel _ j)
+      pose proof (render_top_pool_irrelevant unit buffer_sink cap true false esc (j_env _ j) (j_benv _ j) (j_senv _ j) (j_cnt _ j) (j_cancel _ j)
                     [] (j_choice _ j) (j_guard _ j) (j_body _ j) {| sst := tt; recv := []; log := []; marks := [] |}) as PI1.
       rewrite R1 in PI1. rewrite <- PI1 in PI. cbn [fst] in PI. inversion PI; subst.
       cbn [fst snd]. split; [reflexivity|].
       unfold pools_clean. cbn [snd]. constructor; [reflexivity|exact C].
   - cbn [fst snd].
-    pose proof (render_top_pool_irrelevant sink_st sink cap sw flusher esc (j_env _ j) (j_cancel _ j)
+    pose proof (render_top_pool_irrelevant sink_st sink cap sw flusher esc (j_env _ j) (j_benv _ j) (j_senv _ j) (j_cnt _ j) (j_cancel _ j)
                   (fst ps) (j_choice _ j) (j_guard _ j) (j_body _ j) {| sst := j_sink0 _ j; recv := []; log := []; marks := [] |}) as PI.
-    destruct (render_top sink_st sink cap sw flusher esc (j_env _ j) (j_cancel _ j) true (fst ps) (j_choice _ j)
+    destruct (render_top sink_st sink cap sw flusher esc (j_env _ j) (j_benv _ j) (j_senv _ j) (j_cnt _ j) (j_cancel _ j) true (fst ps) (j_choice _ j)
                 (j_guard _ j) (j_body _ j) {| sst := j_sink0 _ j; recv := []; log := []; marks := [] |}) as [[e w] rp].
-    destruct (render_top sink_st sink cap sw flusher esc (j_env _ j) (j_cancel _ j) true [] (j_choice _ j)
+    destruct (render_top sink_st sink cap sw flusher esc (j_env _ j) (j_benv _ j) (j_senv _ j) (j_cnt _ j) (j_cancel _ j) true [] (j_choice _ j)
                 (j_guard _ j) (j_body _ j) {| sst := j_sink0 _ j; recv := []; log := []; marks := [] |}) as [[e1 w1] rp1] eqn:R1.
-    pose proof (render_top_pool_irrelevant sink_st sink cap sw flusher esc (j_env _ j) (j_cancel _ j)
+    pose proof (render_top_pool_irrelevant sink_st sink cap sw flusher esc (j_env _ j) (j_benv _ j) (j_senv _ j) (j_cnt _ j) (j_cancel _ j)
                   [] (j_choice _ j) (j_guard _ j) (j_body _ j) {| sst := j_sink0 _ j; recv := []; log := []; marks := [] |}) as PI1.
     rewrite R1 in PI1. rewrite <- PI1 in PI. cbn [fst] in PI. inversion PI; subst.
     cbn [fst snd]. split; [reflexivity|exact C].
@@ -417,9 +454,9 @@ Qed.
 End JobsP.
 
 (* ---------- what the two resets are for: the leaks without them (cap = 4) ---------- *)
-Definition leak_env : N -> bytes * option N := fun _ => ([], None).
+Definition leak_env : list nat -> N -> bytes * option N := fun _ _ => ([], None).
 Definition leak_job (body : list node) (html : bool) (mode : N) (limit : nat) : job fsink :=
-  {| j_env := leak_env; j_cancel := None; j_guard := true; j_body := body; j_html := html;
+  {| j_env := leak_env; j_benv := fun _ _ => false; j_senv := fun _ _ => 0; j_cnt := fun _ _ => 0; j_cancel := None; j_guard := true; j_body := body; j_html := html;
      j_sink0 := {| f_mode := mode; f_limit := limit; f_tripped := false; f_err := 7%N |};
      j_choice := 0; j_choice2 := 0 |}.
 Definition leak_jobs1 : list (job fsink) :=
@@ -470,32 +507,35 @@ Variable cap : nat.
 Variable sw : bool.
 Variable flusher : bool.
 Variable esc : bytes -> bytes.
-Variable env : N -> bytes * option N.
+Variable env : list nat -> N -> bytes * option N.
+Variable benv : list nat -> N -> bool.
+Variable senv : list nat -> N -> nat.
+Variable cnt : list nat -> N -> nat.
 Variable cancel : option N.
 Hypothesis sink_le : forall s p, fst (fst (sink s p)) <= length p.
-Notation render_topT := (render_top sink_st sink cap sw flusher esc env cancel).
-Notation denoteT := (denote esc env cancel).
+Notation render_topT := (render_top sink_st sink cap sw flusher esc env benv senv cnt cancel).
+Notation denoteT := (denote esc env benv senv cnt cancel).
 Notation worldT := (world sink_st).
 
 Theorem nil_means_all pool choice g body (w0 : worldT) w' pool' :
   recv w0 = [] -> log w0 = [] ->
   render_topT true pool choice g body w0 = (None, w', pool') ->
-  recv w' = fst (denoteT (Templ g body)) /\ snd (denoteT (Templ g body)) = None.
+  recv w' = fst (denoteT (Templ g body) []) /\ snd (denoteT (Templ g body) []) = None.
 Proof.
-  intros R0 L0 H. destruct (render_top_spec _ _ _ _ _ _ _ _ sink_le _ _ _ _ _ _ _ _ R0 L0 H) as [_ [X _]].
+  intros R0 L0 H. destruct (render_top_spec sink_st sink cap sw flusher esc env benv senv cnt cancel sink_le _ _ _ _ _ _ _ _ R0 L0 H) as [_ [X _]].
   apply X. reflexivity.
 Qed.
 
 Theorem fail_stop pool choice g body (w0 : worldT) res w' pool' :
   recv w0 = [] -> log w0 = [] ->
   render_topT true pool choice g body w0 = (res, w', pool') ->
-  prefix (recv w') (fst (denoteT (Templ g body))) /\
+  prefix (recv w') (fst (denoteT (Templ g body) [])) /\
   (forall x, first_refusal (log w') = Some x ->
      res <> None /\
-     (res = Some x \/ (res = snd (denoteT (Templ g body)) /\ snd (denoteT (Templ g body)) <> None)) /\
-     (snd (denoteT (Templ g body)) = None -> res = Some x)).
+     (res = Some x \/ (res = snd (denoteT (Templ g body) []) /\ snd (denoteT (Templ g body) []) <> None)) /\
+     (snd (denoteT (Templ g body) []) = None -> res = Some x)).
 Proof.
-  intros R0 L0 H. destruct (render_top_spec _ _ _ _ _ _ _ _ sink_le _ _ _ _ _ _ _ _ R0 L0 H) as [P [_ [X _]]].
+  intros R0 L0 H. destruct (render_top_spec sink_st sink cap sw flusher esc env benv senv cnt cancel sink_le _ _ _ _ _ _ _ _ R0 L0 H) as [P [_ [X _]]].
   split; [exact P|]. intros x Hx. destruct (X x Hx) as [E|[E1 E2]].
   - split; [rewrite E; discriminate|]. split; [left; exact E|intros _; exact E].
   - split; [rewrite E1; exact E2|]. split; [right; split; assumption|intros D; contradiction].
@@ -505,12 +545,12 @@ Qed.
 Theorem program_error_returned pool choice g body (w0 : worldT) res w' pool' y :
   recv w0 = [] -> log w0 = [] ->
   render_topT true pool choice g body w0 = (res, w', pool') ->
-  snd (denoteT (Templ g body)) = Some y ->
+  snd (denoteT (Templ g body) []) = Some y ->
   (first_refusal (log w') = None -> res = Some y) /\
   (forall x, first_refusal (log w') = Some x -> res = Some y \/ res = Some x) /\
-  prefix (recv w') (fst (denoteT (Templ g body))).
+  prefix (recv w') (fst (denoteT (Templ g body) [])).
 Proof.
-  intros R0 L0 H D. destruct (render_top_spec _ _ _ _ _ _ _ _ sink_le _ _ _ _ _ _ _ _ R0 L0 H) as [P [_ [X Y]]].
+  intros R0 L0 H D. destruct (render_top_spec sink_st sink cap sw flusher esc env benv senv cnt cancel sink_le _ _ _ _ _ _ _ _ R0 L0 H) as [P [_ [X Y]]].
   split; [intros Nr; rewrite (Y Nr); exact D|]. split; [|exact P].
   intros x Hx. destruct (X x Hx) as [E|[E1 _]]; [right; exact E|left; rewrite E1; exact D].
 Qed.
@@ -518,18 +558,18 @@ Qed.
 Theorem expr_error_position pool choice (g : bool) pre id file line col post v x (w0 : worldT) res w' pool' :
   recv w0 = [] -> log w0 = [] ->
   (if g then cancel else None) = None ->
-  snd (seq_d node denoteT pre) = None ->                  (* everything before the expression renders *)
-  env id = (v, Some x) ->                                 (* the expression returns an error *)
+  snd (seq_d node (fun n => denoteT n []) pre) = None ->  (* everything before the expression renders *)
+  env [] id = (v, Some x) ->                              (* the expression returns an error *)
   render_topT true pool choice g (pre ++ Expr id file line col :: post) w0 = (res, w', pool') ->
-  prefix (recv w') (fst (seq_d node denoteT pre)) /\
+  prefix (recv w') (fst (seq_d node (fun n => denoteT n []) pre)) /\
   (first_refusal (log w') = None -> res = Some (ETempl file line col (EExpr x))) /\
   (forall z, first_refusal (log w') = Some z -> res = Some (ETempl file line col (EExpr x)) \/ res = Some z).
 Proof.
   intros R0 L0 G Hp He H.
-  assert (D : denoteT (Templ g (pre ++ Expr id file line col :: post)) =
-              (fst (seq_d node denoteT pre), Some (ETempl file line col (EExpr x)))).
-  { cbn [denote]. assert (DE : denoteT (Expr id file line col) = ([], Some (ETempl file line col (EExpr x)))) by (cbn [denote]; rewrite He; reflexivity).
-    destruct g; [cbn in G; revert Hp DE; rewrite G; intros Hp DE|]; apply seq_d_fail_at; assumption. }
+  assert (D : denoteT (Templ g (pre ++ Expr id file line col :: post)) [] =
+              (fst (seq_d node (fun n => denoteT n []) pre), Some (ETempl file line col (EExpr x)))).
+  { cbn [denote]. assert (DE : (fun n => denoteT n []) (Expr id file line col) = ([], Some (ETempl file line col (EExpr x)))) by (cbn beta; cbn [denote]; rewrite He; reflexivity).
+    cbn beta in DE. destruct g; [cbn in G; revert Hp DE; rewrite G; intros Hp DE|]; (eapply seq_d_fail_at; [exact Hp|cbn beta; exact DE]). }
   destruct (program_error_returned _ _ _ _ _ _ _ _ _ R0 L0 H (f_equal snd D)) as [A [B C]].
   rewrite D in C. cbn [fst] in C. split; [exact C|]. split; assumption.
 Qed.
